@@ -589,6 +589,8 @@
    (else
     (let ((d (car o)))
       (cond
+       ((not (and (exact-integer? d) (<= 2 d 36)))
+        (error "number->string: invalid radix" d))
        ((%complex? num)
         (let ((real (real-part num))
               (imag (imag-part num)))
